@@ -126,7 +126,23 @@ def check_pipes(pipes, tol=1e-9):
 # --------------------------------------------------------------------------------------------
 # the whole program on a PDB text (`Model/Program.lean`: parser, read_pdb, top-up, set-up pipeline, scoring)
 # --------------------------------------------------------------------------------------------
-def program_request(text, options, rp="-"):
+def chains_of_optargs(optargs):
+    """the chain selection as the command line spells it (every value of -c / --chain, in order; a blank is the chain without
+    identifier) - read off the raw arguments, so that the option parser itself is on the program's side of the comparison"""
+    out, it = [], iter(list(optargs))
+    for a in it:
+        if a in ("-c", "--chain"):
+            v = next(it, None)
+            if v is not None:
+                out.append(v)
+        elif a.startswith("--chain="):
+            out.append(a[len("--chain="):])
+        elif a.startswith("-c") and len(a) > 2 and not a.startswith("--"):
+            out.append(a[2:])
+    return out
+
+
+def program_request(text, options, rp="-", optargs=None):
     lines = text.split("\n")
     if lines and lines[-1] == "":
         lines.pop()
@@ -134,7 +150,7 @@ def program_request(text, options, rp="-"):
     raw = [l + "\n" for l in lines]
     if not text.endswith("\n") and raw:
         raw[-1] = raw[-1][:-1]
-    ch = getattr(options, "chains", None)
+    ch = chains_of_optargs(optargs) if optargs is not None else getattr(options, "chains", None)
     gw = ",".join(str(common.bits(float(x))) for x in tuple(getattr(options, "grid", (0.0, 14.0, 0.1))) + tuple(getattr(options, "window", (0.0, 14.0, 1.0))))
     return "pipe pdb %s %s %s %s %s default %s %s" % (
         rp, "1" if getattr(options, "protonate_all", False) else "0", to_arg(options), "1" if getattr(options, "keep_protons", False) else "0",
@@ -253,7 +269,7 @@ def check_program(cases, tol=1e-9):
             outside += 1
             continue
         err, options, confs, rp, avr, txt = r
-        reqs.append(program_request(text, options, rp))
+        reqs.append(program_request(text, options, rp, optargs))
         todo.append((tag, err, confs, avr, txt))
     if not reqs:
         return 0, 0, 0, outside, []
